@@ -367,6 +367,9 @@ func runProperty(res *Result, prop, tier string, seed uint64, driver, replay str
 		fmt.Fprintln(os.Stderr, "unknown property", prop)
 		os.Exit(2)
 	}
+	if prop == "C10" {
+		oracleC10Nil(res)
+	}
 	res.Cases = len(cases)
 	distinct := map[string]bool{}
 	for _, c := range cases {
